@@ -295,9 +295,10 @@ package asn1parser
 
 //@ func ParseUTCTime
 //@   validator
-//@   props C07
+//@   props C07 C06
 //@   pure
 //@   ensures err == nil ==> ret != nil
+//@   ensures[C06] utc_time_year_window: err == nil ==> 1950 <= yearOf(*ret) && yearOf(*ret) <= 2049
 
 // rdnOfBytes: the rendering of the name encoded by a DER byte string (decoding is deterministic)
 //@ spec func rdnOfBytes(raw string) string uninterpreted
